@@ -6,7 +6,8 @@ Inductive case :=
            (impl : option (list (out * severity)))
 | CParse (comment : list N) (impl : option (list fconf))
 | CFull (evs : list event) (first_code : option (N * N)) (raw : list diag) (impl : list (out * severity))
-        (all_comments : list (N * N * list (list N))).
+        (all_comments : list (N * N * list (list N)))
+        (before_piece : list (N * N)).   (* the comments that sit directly before the first token of a piece of code *)
 
 Definition lint_names : list string := map (fun x => fst (fst x)) lint_table.
 
@@ -73,7 +74,7 @@ Definition check_case (c : case) : N * N :=
                   | None, None => true
                   | _, _ => false end in
       ((bit (negb corr) 1)%N, 0%N)
-  | CFull evs fc raw impl comments =>
+  | CFull evs fc raw impl comments pieces =>
       match collect lint_names evs with
       | None => (1%N, 0%N)
       | Some es =>
@@ -94,8 +95,11 @@ Definition check_case (c : case) : N * N :=
           let claimed := fun c : N * N * list (list N) =>
             existsb (fun ev => negb (ev_block ev)
                                && existsb (fun c' => range_eqb (fst c') (fst c)) (ev_comments ev)) evs in
-          let f2 := existsb (fun c => is_filter c && negb (claimed c)) comments in
-          ((bit (negb corr) 1 + bit (negb wf) 2 + bit (wf && negb spec_d) 4 + bit (wf && negb spec_f) 8)%N,
+          let at_piece := fun c : N * N * list (list N) => existsb (range_eqb (fst c)) pieces in
+          let f2 := existsb (fun c => is_filter c && negb (claimed c) && negb (at_piece c)) comments in
+          (* a filter comment directly before a piece of code that no visited node claims is ignored silently *)
+          let lost := existsb (fun c => is_filter c && negb (claimed c) && at_piece c) comments in
+          ((bit (negb corr) 1 + bit (negb wf) 2 + bit (wf && negb spec_d) 4 + bit (wf && negb spec_f) 8 + bit lost 16)%N,
            bit f2 1)
       end
   end.
